@@ -218,16 +218,21 @@ class RandGen:
     a reference to a rule with a smaller-or-equal index is only generated behind a consuming atom,
     and repetition bodies are forced to consume."""
 
-    def __init__(self, rng: random.Random, core_only: bool, raisers: bool, n_rules: int, alphabet=(A_, B_, C_)):
+    def __init__(self, rng: random.Random, core_only: bool, raisers: bool, n_rules: int, alphabet=(A_, B_, C_), eol_atoms: bool = False):
         self.rng = rng
         self.core_only = core_only
         self.raisers = raisers
         self.n = n_rules
         self.alpha = list(alphabet)
+        self.eol_atoms = eol_atoms
 
     def atom(self, consuming: bool):
         r = self.rng
         opts = ['one', 'one', 'one', 'string', 'range', 'any', 'not_one']
+        if self.eol_atoms:
+            opts += ['eol', 'eol', 'any', 'bytes']
+            if not consuming:
+                opts += ['eolf']
         if not consuming:
             opts += ['eof', 'success', 'failure']
         k = r.choice(opts)
@@ -239,6 +244,8 @@ class RandGen:
             return P('string', *[C(r.choice(self.alpha)) for _ in range(r.choice([1, 2, 2, 3]))])
         if k == 'range':
             return P('range', C(A_), C(r.choice([B_, C_])))
+        if k == 'bytes':
+            return P('bytes', N(r.choice([1, 2])))
         return P(k)
 
     def expr(self, g: Grammar, refs: List[Ref], idx: int, depth: int, consuming: bool, guarded: bool):
